@@ -54,6 +54,7 @@ func propC02(w *World, r *Run) {
 	ruleNewKeepsConfig(w, r, "C02.f")
 	ruleAdapter(w, r, "C02.g")
 	ruleDecodeTargetFresh(w, r, "C02.h")
+	ruleSoleWriter(w, r, "C02.i")
 }
 
 func propC03(w *World, r *Run) {
@@ -73,6 +74,7 @@ func propC03(w *World, r *Run) {
 	ruleNoDetachedAnswer(w, r, "C03.g")
 	ruleImplicitPanic(w, r, "C03.h", reachableModule(w, []*ssa.Function{w.fn(fnUpdate)}))
 	ruleStoredBytesNotRecycled(w, r, "C03.i")
+	ruleCosignatureNotReleasedBeforeStored(w, r, a, "C03.j")
 }
 
 func propC04(w *World, r *Run) {
@@ -92,6 +94,8 @@ func propC04(w *World, r *Run) {
 	ruleDistributorAs(w, r, "C15.a", "C04.j")
 	ruleWitnessBytesImmutable(w, r, "C04.k")
 	ruleNoManualEncoding(w, r, "C04.l")
+	ruleSoleWriter(w, r, "C04.m")
+	ruleNoAppendOntoSharedPrefix(w, r, "C04.n")
 }
 
 func propC07(w *World, r *Run) {
@@ -155,6 +159,8 @@ func propC09(w *World, r *Run) {
 	ruleBastionGetsAllLogs(w, r, "C09.h")
 	ruleComposedSQL(w, r, "C09.g")
 	ruleContentLengthUnknownIsNotEmpty(w, r, "C09.i")
+	ruleServeHTTP(w, r, "C09.j", "C09.j", "C09.j")
+	ruleParseBodyRefusesOnlyForm(w, r, "C09.k")
 }
 
 func propC20(w *World, r *Run) {
@@ -261,6 +267,7 @@ func propC11(w *World, r *Run) {
 	ruleEndpointHygiene(w, r, "C11.g")
 	ruleProofFraming(w, r, "C11.h")
 	ruleDecodeIntoSizedBuffer(w, r, "C11.i", reachableModule(w, []*ssa.Function{w.fn(fnUnmarshal), w.fn(fnParseBody)}))
+	ruleNoAppendOntoSharedPrefix(w, r, "C11.j")
 }
 
 func init() {
@@ -278,6 +285,7 @@ func propC13(w *World, r *Run) {
 	ruleNeverGivesUp(w, r, "C13.i")
 	rulePooledBytesDontEscape(w, r, "C13.j")
 	ruleSizeNarrowing(w, r, "C13.k")
+	ruleNoDerefOfFailedResult(w, r, "C13.l", fnFeedOnce)
 	ruleSumDBConstants(w, r) // reported under the tile rules' own ids (C18.*): each proof attempt reads its tiles from the log, one result per requested tile
 }
 
@@ -308,6 +316,8 @@ func propC16(w *World, r *Run) {
 	ruleReturnIsStored(w, r, analyseUpdate(w, r), "C16.f")
 	ruleCommitBeforeAck(w, r, "C16.f")
 	rulePooledBytesDontEscape(w, r, "C16.g")
+	ruleNoManualEncoding(w, r, "C16.h")
+	ruleNoAppendOntoSharedPrefix(w, r, "C16.i") // the in-memory store hands out the very slice it keeps: a reader that filters it in place rewrites what the next GET serves
 }
 
 func init() {
@@ -358,6 +368,8 @@ func propC14(w *World, r *Run) {
 	ruleFeedLogFailsOnlyOnConfig(w, r, "C14.h")
 	ruleFeederPanics(w, r, "C14.i")
 	ruleSharedHandlesNotMutated(w, r, "C14.j")
+	ruleFetchersKeepNoState(w, r, "C14.k")
+	ruleCapsAndTimeouts(w, r, "C14.l", "C14.l")
 }
 
 func init() {
@@ -382,6 +394,7 @@ func propC17(w *World, r *Run) {
 	ruleNoNilMapWriteInMain(w, r, "C17.h")
 	ruleConfigSliceNotMutated(w, r, "C17.f")
 	ruleServeHTTP(w, r, "C17.g", "C17.g", "C17.g") // a configured log's submissions reach the witness: the endpoint pronounces no verdict of its own
+	ruleFeedFuncOnlyForPolledLogs(w, r, "C17.i")
 }
 
 func propC18(w *World, r *Run) {
@@ -396,6 +409,7 @@ func propC18(w *World, r *Run) {
 	ruleFetcherStateless(w, r, "C18.j")
 	ruleSharedHandlesNotMutated(w, r, "C18.k")
 	ruleShippedSumDBURL(w, r, "C18.l")
+	ruleFetchFailsOnlyOnTransport(w, r, "C18.m")
 	ruleHonestStep(w, r, analyseUpdate(w, r), "C18.h", "0<stored<submitted") // a growth step between two non-zero sizes: what a feeder's proof is for
 }
 
@@ -441,4 +455,5 @@ func propC19(w *World, r *Run) {
 	ruleNoUnboundedClient(w, r, "C19.m")
 	ruleDecodedPointersGuarded(w, r, "C19.p")
 	ruleTickerDurationsPositive(w, r, "C19.q")
+	ruleDoublingLoopsTerminate(w, r, "C19.r")
 }
